@@ -177,6 +177,18 @@ def far_ints():
     return sorted(out)
 
 
+
+def case_variants(c):
+    """every upper/lower-case spelling of a short code or name (PoC, pOC, ... for POC): what a lenient alias table or a
+    case-folding comparison would accept"""
+    if not c or len(c) > 4 or not c.isalpha():
+        return []
+    out = [""]
+    for ch in c:
+        out = [p + x for p in out for x in sorted({ch.lower(), ch.upper()})]
+    return [v for v in out if v != c]
+
+
 def table_ops(rng, nrandom):
     """every Get / String / Value / validity of every metric: integers -3..10, every code that
     occurs anywhere in the library plus case variants, prefixes, padded forms, random strings"""
@@ -184,6 +196,7 @@ def table_ops(rng, nrandom):
     strings = set(vec.ALL_CODES) | set(vec.ALL_NAMES)
     for c in list(strings):
         strings.update([c.lower(), c + " ", " " + c, c + c, c[:1], c[:-1], c + "\x00", c.capitalize(), c.swapcase()])
+        strings.update(case_variants(c))
     strings.update(["", " ", "X", "ND", "x", "nd", "Not Defined", "0", "1", "unknown", "Unknown", "\xff", "Ｎ", "N\n"])
     # every string of one or two capital letters; every (suffix of a metric name) + (a code of any metric): what a lookup
     # keyed by name and code together would confuse with a real entry
@@ -209,7 +222,11 @@ def table_ops(rng, nrandom):
                 ops.append("%s %s get %s" % (fam, m[0], hx(s)))
     for v in list(range(-3, 11)) + FAR:
         ops.append("TV str %d" % v)
-    for s in strings + ["CVSS:3.0", "CVSS:3.1", "CVSS:3.2", "CVSS:", "cvss:3.1", "CVSS:3.1:", ":3.1", "3.0", "3.1", "CVSS:2.0", "CVSS:3.10", "CVSS:4.0"]:
+    for s in strings + ["CVSS:3.0", "CVSS:3.1", "CVSS:3.2", "CVSS:", "cvss:3.1", "CVSS:3.1:", ":3.1", "3.0", "3.1", "CVSS:2.0", "CVSS:3.10", "CVSS:4.0",
+                        # labels that are numerically 3.0 / 3.1 but not the labels themselves
+                        "3.00", "3.01", "3.10", "03.0", "03.1", "+3.0", "+3.1", "3.+0", "3.+1", "3.-0", "-3.1", "3.1 ", " 3.1", "3.1.0", "3.1e0",
+                        "3,1", "3_1", "0x3.1", "3.１", "３.1", "3..1", ".3.1", "31", "3", "3.", ".1", "3.1\x00", "CVSS:3.01", "CVSS:03.1", "CVSS:+3.1",
+                        "CVSS:3.00", "CVSS:3.+1", "CVSS:3.-0"]:
         ops.append("TV get %s" % hx(s))
     return ops
 
@@ -231,6 +248,7 @@ def value_variants(codes, val):
             out.append(c[:k])
             out.append(c[k:])
         out += [c + "X", "X" + c, c + c[-1], c.lower(), c.capitalize(), c + "\x00", c + " ", c + "/"]
+        out += case_variants(c)
     seen = set()
     res = []
     for v in out:
@@ -311,7 +329,9 @@ def edits_v3(ver, t, rng, heavy):
     yield mk(pre, t) + " "
     yield mk(pre, t) + "\n"
     for p in ["CVSS:3.2", "CVSS:2.0", "CVSS:4.0", "CVSS:3", "CVSS:3.10", "CVSS:", "CVSS", "cvss:" + ver, "CVSS:" + ver + ":", "CVSS" + ver,
-              "CVSS::" + ver, ver, ":" + ver, "CVSS: " + ver, "CVSS:" + ver + " ", "", "CVSS:3.1/CVSS:3.0", "(" + pre, "CVSS:unknown"]:
+              "CVSS::" + ver, ver, ":" + ver, "CVSS: " + ver, "CVSS:" + ver + " ", "", "CVSS:3.1/CVSS:3.0", "(" + pre, "CVSS:unknown",
+              "CVSS:3.01", "CVSS:03.1", "CVSS:+3.1", "CVSS:3.00", "CVSS:03.0", "CVSS:3.+1", "CVSS:3.-0", "CVSS:3.1.0", "CVSS:3.1e0", "CVSS:3.10",
+              "CVSS:0" + ver, "CVSS:+" + ver, "CVSS:" + ver + "0", "CVSS:" + ver.replace(".", ".0"), "CVSS:" + ver.replace(".", ".+")]:
         yield mk(p, t)
     yield "/".join(t)                                                  # no prefix at all
     yield mk(pre, []) if False else pre                                # prefix only
@@ -460,6 +480,11 @@ def edits_v2(b, t, e, rng, heavy):
                 yield mk(tt)
     # group-level edits
     yield mk(b + e + t)                   # temporal after environmental
+    for k in range(1, len(e)):
+        yield mk(b + e[:k] + t + e[k:])   # the whole temporal group inside the environmental one
+    for k in range(1, len(b)):
+        yield mk(b[:k] + t + b[k:] + e)   # ... inside the base group
+        yield mk(b[:k] + e + b[k:])
     yield mk(t + b + e)
     yield mk(e + t + b)
     for g in (t, e):
